@@ -745,7 +745,7 @@ def twin_observations(case, spec, order):
 
     problem, prog, orphan = case["problem"], case["prog"], case["orphan"]
     ck = (seed(), problem, case.get("mesh", "base"), prog, case["ground"], orphan, problem == "beam" and case["resol"] == "elim",
-          case["mode"] if case["mode"].startswith("dyn_") else "")
+          case["mode"] if case["mode"].startswith("dyn_") else "", bool(case.get("homog")), bool(case.get("tiny")))
     if ck in _TWIN_CACHE:
         return _TWIN_CACHE[ck]
     dyn = case["mode"].startswith("dyn_")
